@@ -756,7 +756,7 @@ def witness_of(lines, badline, notes):
     mine = [ln for ln in lines[start:badline] if ln['c'] == c]
     ins = [first] if first else []
     cls = first['cls'] if first else ''
-    wf = first['wf'] if first else ''
+    wf = _msg_before(lines, badline - 1, c)[0] if first else ''
     rej = [ln['st'] for ln in mine if ln['k'] == 'rej']
     req = any(ln['k'] == 'req' for ln in mine)
     resp = [ln for ln in mine if ln['k'] == 'resp']
@@ -796,6 +796,10 @@ def witness_of(lines, badline, notes):
     if bl['k'] == 'req':
         w['want'] = (first or {}).get('pr', '')
         w['got'] = bl['pr']
+    excs = [n for n in notes if n.startswith('exception in ')]
+    if excs:      # 'exception in <handler> handling <event>: <Type>: ...'
+        parts = excs[0].split()
+        w['exc_in'] = '%s:%s' % (parts[2], parts[5].rstrip(':')) if len(parts) > 5 else ''
     heads = [ln for ln in before if ln['k'] == 'in' and ln['cls'] == 'GoodHead']
     w['after_head'] = bool(heads)
     dec = sorted({n.split(':', 1)[1] for n in notes if n.startswith('decoder:')} - {'version'})
@@ -971,6 +975,11 @@ def _phase_before(lines, i, c):
 
 
 def _want_before(lines, i, c):
+    return _msg_before(lines, i, c)[1]
+
+
+def _msg_before(lines, i, c):
+    """(wf, want) of the current message of connection c before line i (mirror of HttpConnOps!Apply)."""
     ph, nresp, wf, want = 'none', 0, '', ''
     for ln in lines[:i]:
         if ln['c'] != c:
@@ -980,35 +989,21 @@ def _want_before(lines, i, c):
             ph = 'idle'
         elif k == 'in':
             if ph == 'recv' and nresp == 0:
-                want = want if (ln['cls'] == 'Rest' and wf == 'partial' and ln['pr'] == want) else ''
-                wf = 'good' if (ln['cls'] == 'Rest' and wf == 'partial') else 'hostile'
+                whole = ln['cls'] == 'Rest' and wf == 'partial' and ln['pr'] == want
+                want = want if whole else ''
+                wf = 'good' if whole else 'hostile'
             else:
-                ph, nresp, wf, want = 'recv', 0, ln['wf'], ln['pr']
+                ph, nresp = 'recv', 0
+                wf, want = ('hostile', '') if ln['cls'] == 'Rest' else (ln['wf'], ln['pr'])
         elif k in ('req', 'rej') and ph == 'recv':
             ph = 'disp' if k == 'req' else 'rej'
         elif k == 'resp':
             nresp += 1
-    return want
+    return wf, want
 
 
 def _wf_before(lines, i, c):
-    ph, nresp, wf = 'none', 0, ''
-    for ln in lines[:i]:
-        if ln['c'] != c:
-            continue
-        k = ln['k']
-        if k == 'conn':
-            ph = 'idle'
-        elif k == 'in':
-            if ph == 'recv' and nresp == 0:
-                wf = 'good' if (ln['cls'] == 'Rest' and wf == 'partial') else 'hostile'
-            else:
-                ph, nresp, wf = 'recv', 0, ln['wf']
-        elif k in ('req', 'rej') and ph == 'recv':
-            ph = 'disp' if k == 'req' else 'rej'
-        elif k == 'resp':
-            nresp += 1
-    return wf
+    return _msg_before(lines, i, c)[0]
 
 
 # ---------------------------------------------------------------------------
@@ -1067,7 +1062,7 @@ def run_replay(path):
 # ---------------------------------------------------------------------------
 
 ACTIONS = ('Connect', 'In', 'Late', 'InX', 'Disc', 'TDisc')
-VARIANTS = {frozenset(): 'intended'}
+VARIANTS = {frozenset(): 'intended', frozenset(['echo505', 'cookieecho']): 'head'}
 
 
 def run(tier, replay=None):
@@ -1094,6 +1089,7 @@ def run(tier, replay=None):
         'gen:stalebuf': lambda: tlc.run_tlc(SPEC, 'HttpConn', 'MC_HttpConn_stalebuf.cfg', workers=1),
         'gen:stalepair': lambda: tlc.run_tlc(SPEC, 'HttpConn', 'MC_HttpConn_stalepair.cfg', workers=1),
         'gen:crsplit': lambda: tlc.run_tlc(SPEC, 'HttpConn', 'MC_HttpConn_crsplit.cfg', workers=1),
+        'gen:cookieecho': lambda: tlc.run_tlc(SPEC, 'HttpConn', 'MC_HttpConn_cookieecho.cfg', workers=1),
         'hist:one': lambda: dump_histories('HIST_HttpConn_one%s.cfg' % suffix),
         'hist:two': lambda: dump_histories('HIST_HttpConn_two%s.cfg' % suffix),
     }
@@ -1114,7 +1110,8 @@ def run(tier, replay=None):
     expect = {'gen:keepbuf': ('C14.residue',), 'gen:echo505': ('C14.invalid_response', 'C14.close_mismatch'),
               'gen:stalebuf': ('C14.two_responses', 'C14.error_for_wellformed'),
               'gen:stalepair': ('C14.wrong_request', 'C14.invalid_response'),
-              'gen:crsplit': ('C14.error_for_wellformed',)}
+              'gen:crsplit': ('C14.error_for_wellformed',),
+              'gen:cookieecho': ('C14.invalid_response',)}
     gen_hists = []
     for k, clause in expect.items():
         g = results[k]
@@ -1215,7 +1212,8 @@ def run(tier, replay=None):
             if not reacted:
                 obs['waiting'] += 1
         # model's lines vs real lines
-        if org == 'tlc-history':
+        if org == 'tlc-history' and not any(ln['k'] == 'alive' and ln['a'] == 0 for ln in lines):
+            # (a run that ends in a dead loop is abandoned there: the model does not describe it)
             eh = effective_history(done)
             cands = {v: pred[v].get(eh) for v in pred if eh in pred[v]}
             if not cands:
